@@ -25,17 +25,31 @@ import (
 // Resolver.Resolve must return a value or an error - never panic - and allocate within bounds.
 func dohFraming(r *mon.Run, bodies [][]byte) {
 	type mode struct {
-		name string
-		raw  bool // needs a hijacked connection (malformed headers)
+		name  string
+		exact bool // Content-Length equals the body: the result must be the decoding of exactly that body
+		raw   bool // needs a hijacked connection (malformed headers)
 		h    func(w http.ResponseWriter, body []byte)
 		rawf func(c net.Conn, body []byte)
 	}
 	ct := func(w http.ResponseWriter) { w.Header().Set("Content-Type", "application/dns-message") }
 	modes := []mode{
-		{name: "content-length-exact", h: func(w http.ResponseWriter, b []byte) {
+		{name: "content-length-exact", exact: true, h: func(w http.ResponseWriter, b []byte) {
 			ct(w)
 			w.Header().Set("Content-Length", strconv.Itoa(len(b)))
 			w.Write(b)
+		}},
+		{name: "content-length-exact-body-in-pieces", exact: true, h: func(w http.ResponseWriter, b []byte) {
+			// the body reaches the client in several reads: header flushed first, then pieces
+			ct(w)
+			w.Header().Set("Content-Length", strconv.Itoa(len(b)))
+			w.WriteHeader(200)
+			w.(http.Flusher).Flush()
+			for len(b) > 0 {
+				n := min(len(b), 1+len(b)/3)
+				w.Write(b[:n])
+				w.(http.Flusher).Flush()
+				b = b[n:]
+			}
 		}},
 		{name: "no-content-length-flushed", h: func(w http.ResponseWriter, b []byte) {
 			ct(w)
@@ -141,6 +155,18 @@ func dohFraming(r *mon.Run, bodies [][]byte) {
 		defer cancel()
 		r.Guard("doh-framing", i, "doh-framing:"+m.name, c, func() {
 			msg, err := dns.DoH(ctx, q, url)
+			if m.exact {
+				body := bodies[j.b%len(bodies)]
+				want, werr := dns.DecodeMessage(body)
+				switch {
+				case (werr == nil) != (err == nil):
+					r.Violate("doh-framing", i, "doh-framing:result-is-not-the-decoding-of-the-body:"+m.name, fmt.Sprintf("DoH returned err=%v for a %d-byte body with a matching Content-Length whose direct decoding gives err=%v", err, len(body), werr), c)
+				case err == nil && fmt.Sprintf("%+v", *msg) != fmt.Sprintf("%+v", *want):
+					r.Violate("doh-framing", i, "doh-framing:result-is-not-the-decoding-of-the-body:"+m.name, fmt.Sprintf("DoH returned a message with %d answers for a %d-byte body that decodes to %d answers (or other fields differ)", len(msg.Answer), len(body), len(want.Answer)), c)
+				default:
+					r.Count("doh_framing_exact_bodies_compared", 1)
+				}
+			}
 			out := "error"
 			if err == nil && msg != nil {
 				out = "message"
@@ -191,5 +217,6 @@ func dohFraming(r *mon.Run, bodies [][]byte) {
 	}
 	r.Floor("doh_framing_calls", int64(len(jobs))*9/10)
 	r.Floor("doh_framing_message", 3)
+	r.Floor("doh_framing_exact_bodies_compared", 8)
 	r.Floor("doh_framing_error", int64(len(jobs))/3)
 }
